@@ -1179,8 +1179,9 @@ static void case_setfields(int k)
     else {
         /* the vdata stays usable: a small field list can still be set and written (only when nothing was half-set) */
         if (nf == 0) {
-            char one[16]; snprintf(one, sizeof one, "G%d", sf_n - 1);      /* the last entry is always a user-defined field */
-            if (VSsetfields(vs, one) == FAIL) hk_fail("limits-followup", "VSsetfields(%s) after a refused field list", one);
+            int u = sf_n - 1; while (u >= 0 && sf_res[u] >= 0) u--;         /* a user-defined field of the list (the last entry is one, except in a 2-entry list of mode 3) */
+            char one[16]; snprintf(one, sizeof one, "G%d", u);
+            if (u >= 0 && VSsetfields(vs, one) == FAIL) hk_fail("limits-followup", "VSsetfields(%s) after a refused field list", one);
         }
         hk_stat("setfields_refused", 1);
     }
